@@ -111,6 +111,7 @@ def gen(seed, V, tier, index, bias=None):
         # the stratum already creates T1 and issues its own init
         scripts["T1"] = [e for e in scripts["T1"] if e[0] != "newtable"]
 
+    pool = []        # compound strings shared by every calculator call of this run (all tables)
     # public client script
     pub = []
     npub = rng.choice([0, 1, 2, 4, 6])
@@ -120,7 +121,8 @@ def gen(seed, V, tier, index, bias=None):
             pub.append(E.gen_read(rng, V))
         elif fam["pub_calc"] and r < 0.75:
             pub.append(E.gen_calc(rng, V, which=rng.choice(
-                ["nscat", "nsld", "xsld", "volume", "activation", "emission_table", "list", "mff", "f0", "fasta_const"])))
+                ["nscat", "nsld", "xsld", "volume", "activation", "emission_table", "list", "mff", "f0", "fasta_const",
+                 "d2o_match", "d2o_sld", "composite", "formula_methods"]), pool=pool))
         elif fam["importer"] and r < 0.85:
             pub.append(["import", rng.choice(E.IMPORTS)])
         elif fam["pub_init"] and r < 0.95:
@@ -208,7 +210,9 @@ def gen(seed, V, tier, index, bias=None):
                     at[1] = 0
                 ev = ["probe", t, at, rng.choice(E.PROBES)]
             else:
-                ev = E.gen_calc(rng, V, tbl=t, which=rng.choice(["nscat", "xsld", "volume", "mass", "activation", "list", "emission_table"]))
+                ev = E.gen_calc(rng, V, tbl=rng.choice([t, t, "public"]), which=rng.choice(
+                    ["nscat", "xsld", "volume", "mass", "activation", "list", "emission_table", "d2o_match", "d2o_sld",
+                     "composite", "formula_methods"]), pool=pool)
         elif fam["pickler"] and r < 0.95:
             msg += 1
             at = V.atom(rng)
